@@ -92,9 +92,11 @@ def gen_history(rng: random.Random, nops: typing.Optional[int] = None) -> list[d
         nops = len(ops) + rng.randint(0, 3)
     while len(ops) < nops:
         kind = rng.choices(['publish', 'train', 'restart', 'read', 'mount', 'train_unknown', 'prune', 'begin', 'commit',
-                            'backup'], [3, 6, 1.5, 1, 0.7, 0.3, 0.5, 1.6, 2.2, 0.6])[0]
+                            'backup', 'rebuild'], [3, 6, 1.5, 1, 0.7, 0.3, 0.5, 1.6, 2.2, 0.6, 0.6])[0]
         if kind == 'backup':
             ops.append({'op': 'backup'})
+        elif kind == 'rebuild':
+            ops.append({'op': 'rebuild', 'which': rng.randrange(64)})
         elif kind == 'publish':
             ops.append(publish())
         elif kind == 'train':
@@ -364,7 +366,36 @@ class Run:
                         raise base.Violation(klass, f'{where}: same process, registry object made for this read over '
                                                     f'{"the other registry " + target if target != "registry" else "the main registry"}: {detail}')
         self.check_append_only(where)
+        self.check_readable_by_others(where)
         self.protect()
+
+    def check_readable_by_others(self, where: str) -> None:
+        """"A fresh reader" is in general another account than the trainer (train as one user, serve as another): every
+        file and directory of a listed item carries the permissions an ordinary file / directory gets under the
+        process umask - not those of a private temporary file it was written through."""
+        import stat  # pylint: disable=import-outside-toplevel
+
+        umask = os.umask(0)
+        os.umask(umask)
+        root = os.path.join(self.box.root, 'registry')
+        for project, rels in self.model.items():
+            for ver, rel in rels.items():
+                tops = [os.path.join(root, project, ver, 'package.4ml')] + [os.path.join(root, project, ver, str(g))
+                                                                            for g in rel['gens']]
+                for top in tops:
+                    paths = [top]
+                    if os.path.isdir(top):
+                        paths += [os.path.join(d, n) for d, dirs, files in os.walk(top) for n in dirs + files]
+                    for path in paths:
+                        if not os.path.exists(path):
+                            continue
+                        mode = stat.S_IMODE(os.stat(path).st_mode)
+                        want = (0o055 if os.path.isdir(path) else 0o044) & ~umask
+                        if mode & want != want:
+                            raise base.Violation('unreadable-for-other-accounts',
+                                                 f'{where}: {os.path.relpath(path, root)} has mode {oct(mode)} (umask '
+                                                 f'{oct(umask)}): a reader under another account is refused')
+                        self.stats['modes_checked'] += 1
 
     # -- model transitions -------------------------------------------------------------------
     def resolve(self, op: dict) -> tuple[str, dict, typing.Optional[dict], str]:
@@ -547,6 +578,32 @@ class Run:
                 self.child = None
             self.trace.append(op)
             self.stats['restarts'] += 1
+            return
+        if kind == 'rebuild':
+            # the user rebuilds an artifact that was published earlier - in place (same file, new bytes; that is what
+            # re-running a build does to dist/<project>.4ml): what the registry holds is its own copy and stays as it is
+            self.trace.append(op)
+            arts = sorted(p for p in pathlib.Path(self.pkgdir).iterdir() if p.suffix in ('.4ml', '.dir'))
+            if not arts or self.registry == 'volatile':
+                return
+            art = arts[op['which'] % len(arts)]
+            files = [art] if art.is_file() else sorted(f for f in art.rglob('*') if f.is_file())
+            saved = {f: f.read_bytes() for f in files}
+            where = f'op{idx} the source artifact {art.name} (published earlier) was rewritten in place'
+            try:
+                for path in files:
+                    with open(path, 'r+b') as handle:
+                        handle.truncate(0)
+                        handle.write(b'rebuilt in place\n')
+                self.stats['fault:source-artifact-rewritten-in-place'] += 1
+                self.check_append_only(where)
+                self.verify(where)
+            finally:
+                for path, data in saved.items():
+                    with open(path, 'r+b') as handle:
+                        handle.truncate(0)
+                        handle.write(data)
+                    os.utime(path, (MTIME, MTIME))
             return
         if kind == 'backup':
             # another tenant's registry appears next to the main one - same project and release names, other content -
